@@ -44,6 +44,9 @@ CLAIMS = {
  "C18": dict(cat="exploration", tech="rapid grammar-based generation of index documents (YAML/JSON), queries, tag lists and dependency ranges; harness-computed maximum over trusted semver precedence as oracle; resolver observed through the real Manager.Update and the Chart.lock it writes",
    text="Generated indexes with pre-releases, build metadata, leading v, partial and invalid versions, duplicates, null and metadata-less entries in arbitrary order; LoadIndexFile post-conditions, IndexFile.Get, registry tag matching and dependency resolution are compared with a reference that computes the best match itself.",
    note="Masterminds/semver trusted for parsing, precedence and constraint satisfaction; OCI paths and file:// dependencies not covered."),
+ "C19": dict(cat="exploration", tech="rapid generation of (repository URL, chart URL) pairs by relation class, redirects, second repositories and credential placements; every request captured by local listeners (custom dialers / HTTP_PROXY + CONNECT); origin predicate as oracle",
+   text="Five real paths (HTTPGetter, ChartDownloader.DownloadTo, LocateChart --repo, Manager.Update, helm pull) run against local capture listeners; any captured request carrying the repository's configured credentials must be on the repository's scheme/host/port unless pass-credentials, including provenance fetches and redirects to unrelated domains.",
+   note="No real network: all hosts are dialled to local listeners; same-domain redirects that keep credentials are counted, not judged; OCI and plugin getters not covered."),
 }
 
 props = [json.loads(l) for l in open('/verif/properties.jsonl')]
